@@ -8,7 +8,8 @@ nominal degree, and the trapezoidal boundary-off clause.
 
 Reading (DESIGN.md C08): the sum / exactness clauses speak of the COMPLETE rule (boundary on, modified basis, or
 Gauss-Legendre which has no boundary flag); with boundary off only count + containment (+ for the trapezoidal family
-the literal "drops exactly the global-boundary points" clause) are demanded.  The hierarchical families (Lagrange,
+the literal "drops exactly the global-boundary points" clause) are demanded; Leja keeps an interpolatory rule on the
+points it returns, so its sum / exactness clauses are checked for both flags.  The hierarchical families (Lagrange,
 B-spline) are read through `grid.integrate` (their `weights` pair with surpluses)."""
 import itertools
 import math
@@ -150,7 +151,9 @@ def run_case(ctx, drv, case, rng, thorough=False, verbose=False):
     if fam in HIER:
         base_tags["p"] = int(case["p"])
     ok = True
-    complete = bd or md or fam == "GaussLegendre"
+    # Leja with boundary off builds the interpolatory rule on the points it keeps (announced = returned since the repair
+    # of level_to_num_points_1d), so it is a complete rule of nominal degree n-1 for its n points
+    complete = bd or md or fam in ("GaussLegendre", "Leja")
     pub = canon(case)
 
     def viol(probe, extra, detail):
